@@ -31,7 +31,10 @@ use skrifa::outline::{DrawSettings, OutlinePen};
 use skrifa::MetadataProvider;
 use std::collections::HashSet;
 use vcore::*;
-use write_fonts::tables::glyf::{Bbox, Contour, GlyfLocaBuilder, SimpleGlyph};
+use font_types::GlyphId16;
+use write_fonts::tables::glyf::{
+    Anchor, Bbox, Component, ComponentFlags, CompositeGlyph, Contour, GlyfLocaBuilder, Glyph, SimpleGlyph, Transform,
+};
 use write_fonts::tables::gvar::iup::iup_delta_optimize;
 use write_fonts::tables::gvar::{GlyphDelta, GlyphDeltas, GlyphVariations, Gvar, Tent};
 use write_fonts::tables::head::Head;
@@ -490,6 +493,131 @@ fn optimiser_families(run: &Run) {
     run.sample(iup_json(&a1_case(&[3, 9, 14, 0], 1)));
 }
 
+/// family a4: half-unit coordinates and deltas. Everything is carried in half units (integers), so the
+/// exact oracle applies unchanged: inference is invariant under scaling the coordinates and linear in
+/// the deltas. Retained = the *input* value of every delta the optimiser keeps (its decision is made
+/// on unrounded values); the returned GlyphDelta must be that value rounded the OpenType way.
+fn check_iup_half(run: &Run, coords2: &[(i64, i64)], deltas2: &[(i64, i64)], ends: &[usize], tol2: i64, l: &mut Local) {
+    l.evals += 1;
+    l.trans += 1;
+    let all2: Vec<(i64, i64)> = {
+        let mut v = coords2.to_vec();
+        v.extend([(0, 0), (100, 0), (0, 0), (0, 0)]);
+        v
+    };
+    let case = || json!({"kind":"iup_half","coords_x2":coords2,"deltas_x2":deltas2,"ends":ends,"tol2":tol2});
+    let kd: Vec<Vec2> = deltas2.iter().map(|d| Vec2::new(d.0 as f64 / 2.0, d.1 as f64 / 2.0)).collect();
+    let kc: Vec<KPoint> = all2.iter().map(|p| KPoint::new(p.0 as f64 / 2.0, p.1 as f64 / 2.0)).collect();
+    let ends_v = ends.to_vec();
+    let res = match guard(|| iup_delta_optimize(kd, kc, tol2 as f64 / 2.0, &ends_v)) {
+        Ok(Ok(r)) => r,
+        Ok(Err(e)) => {
+            run.violation("iup_delta_optimize returns an error for a well-formed glyph (half-unit input)", &format!("{e:?}"), case());
+            return;
+        }
+        Err(p) => {
+            run.violation(&format!("iup_delta_optimize panic: {} in {}", p.kind(), p.site()), &p.message, case());
+            return;
+        }
+    };
+    if res.len() != all2.len() {
+        run.violation("iup_delta_optimize returns the wrong number of deltas", "", case());
+        return;
+    }
+    let explicit: Vec<Option<(i64, i64)>> = res.iter().zip(deltas2.iter()).map(|(r, d)| r.required.then_some(*d)).collect();
+    let inferred = infer(&all2, ends, &explicit);
+    let mut h = Fnv::new();
+    h.str("half");
+    h.u64(tol2 as u64);
+    let mut nopt = 0u64;
+    for i in 0..all2.len() {
+        // OpenType rounding: floor(v + 0.5); in half units floor((d2 + 1) / 2)
+        let rounded = ((deltas2[i].0 + 1).div_euclid(2), (deltas2[i].1 + 1).div_euclid(2));
+        if (res[i].x as i64, res[i].y as i64) != rounded {
+            run.violation(
+                "iup_delta_optimize returns a delta that is not the rounded input (half-unit input)",
+                &format!("point {i}: {:?} for input {:?}/2", (res[i].x, res[i].y), deltas2[i]),
+                case(),
+            );
+            return;
+        }
+        if !res[i].required {
+            nopt += 1;
+            // exact comparison in half units: tolerance doubles; relative slack 1e-9 as designed
+            let ex = inferred[i].0.sub(R::int(deltas2[i].0 as i128));
+            let ey = inferred[i].1.sub(R::int(deltas2[i].1 as i128));
+            let lhs = 4 * (ex.n * ex.n * ey.d * ey.d + ey.n * ey.n * ex.d * ex.d);
+            let t = 2 * tol2 as i128;
+            let rhs = t * t * ex.d * ex.d * ey.d * ey.d;
+            if lhs * 1_000_000_000 > rhs * 1_000_000_001 {
+                run.violation(
+                    &format!("iup_delta_optimize marks a delta optional that inference does not reproduce within tolerance (half-unit input, tolerance {})", tol2 as f64 / 2.0),
+                    &format!("point {i}: input {:?}/2, inferred ({}, {})/2", deltas2[i], inferred[i].0.to_f64(), inferred[i].1.to_f64()),
+                    case(),
+                );
+                return;
+            }
+        }
+        h.u64(res[i].required as u64);
+        h.i64(deltas2[i].0);
+        h.i64(deltas2[i].1);
+        h.i64(all2[i].0);
+        h.i64(all2[i].1);
+    }
+    l.deltas += all2.len() as u64;
+    l.optional += nopt;
+    let d = h.finish();
+    l.all.insert(d);
+    if nopt > 0 && nopt < all2.len() as u64 {
+        l.nontrivial.insert(d);
+    }
+}
+
+const XS_HALF2: [i64; 4] = [0, 1, 3, 20]; // 0, 0.5, 1.5, 10 in half units
+const DS_HALF2: [i64; 5] = [-2, -1, 0, 1, 2]; // -1, -0.5, 0, 0.5, 1
+
+fn half_unit_family(run: &Run) {
+    let nmax = run.tier.pick(4usize, 5usize);
+    run.bound("a4.half_unit_x", json!([0.0, 0.5, 1.5, 10.0]));
+    run.bound("a4.half_unit_deltas", json!([-1.0, -0.5, 0.0, 0.5, 1.0]));
+    run.bound("a4.tolerances", json!([0.0, 0.5, 1.0]));
+    run.bound("a4.max_points", json!(nmax));
+    for n in 1..=nmax {
+        let fixed = n.min(2);
+        let grain = 20usize.pow(fixed as u32);
+        let locals: Vec<Local> = (0..grain)
+            .into_par_iter()
+            .map(|t| {
+                let mut l = Local::new();
+                let mut digits = vec![0usize; n];
+                if fixed == 2 {
+                    digits[0] = t / 20;
+                    digits[1] = t % 20;
+                } else {
+                    digits[0] = t;
+                }
+                loop {
+                    let xs: Vec<i64> = digits.iter().map(|d| XS_HALF2[d % 4]).collect();
+                    let dx: Vec<i64> = digits.iter().map(|d| DS_HALF2[d / 4]).collect();
+                    let coords: Vec<(i64, i64)> = (0..n).map(|i| (xs[i], xs[(i + 1) % n])).collect();
+                    let mut deltas: Vec<(i64, i64)> = (0..n).map(|i| (dx[i], -dx[(i + 2) % n])).collect();
+                    deltas.extend([(0, 0), (dx[0], 0), (0, 0), (0, 0)]);
+                    for tol2 in [0i64, 1, 2] {
+                        check_iup_half(run, &coords, &deltas, &[n - 1], tol2, &mut l);
+                    }
+                    if n == fixed || !next_digits(&mut digits[fixed..], 20) {
+                        break;
+                    }
+                }
+                l
+            })
+            .collect();
+        for l in locals {
+            l.merge(run, &format!("a.a4_half.n{n}"));
+        }
+    }
+}
+
 // ---------------------------------------------------------------------------
 // (b) encoding round trip
 // ---------------------------------------------------------------------------
@@ -828,6 +956,10 @@ fn tents_1axis() -> Vec<Region> {
         vec![(ONE / 2, Some((ONE / 4, ONE)))],
         vec![(-ONE, None)],
         vec![(1, None)],
+        // intermediate regions whose start / end lie one ulp from the peak
+        vec![(ONE / 2, Some((ONE / 2 - 1, ONE / 2 + 1)))],
+        vec![(ONE, Some((ONE - 1, ONE)))],
+        vec![(-ONE, Some((-ONE, -ONE + 1)))],
     ]
 }
 fn tents_2axis() -> Vec<Region> {
@@ -837,6 +969,20 @@ fn tents_2axis() -> Vec<Region> {
         vec![(-ONE, None), (ONE, None)],
         vec![(1, None), (0x2000, Some((0x1000, 0x3000)))],
     ]
+}
+fn tents_3axis() -> Vec<Region> {
+    vec![
+        vec![(ONE, None), (0, None), (-ONE, None)],
+        vec![(0, None), (ONE / 2, Some((ONE / 2 - 1, ONE))), (ONE, None)],
+        vec![(-ONE / 2, Some((-ONE, -1))), (ONE, None), (0x2000, Some((0x1000, 0x3000)))],
+    ]
+}
+fn tents_for(axes: u16) -> Vec<Region> {
+    match axes {
+        1 => tents_1axis(),
+        2 => tents_2axis(),
+        _ => tents_3axis(),
+    }
 }
 
 /// (b1) the optimiser's own output through the encoder
@@ -862,7 +1008,7 @@ fn pipeline_family(run: &Run) {
                     for tol2 in TOLS2 {
                         let c = a1_case(&digits, tol2);
                         if let Some(res) = check_iup(run, &c, &mut sink) {
-                            let ntents = if n <= 3 { tents.len() } else { 1 };
+                            let ntents = if n <= 3 { 4 } else { 1 };
                             for region in tents.iter().take(ntents) {
                                 let g = GlyphSpec {
                                     coords: c.coords.clone(),
@@ -977,8 +1123,8 @@ fn structured_family(run: &Run) {
     run.bound("b2.point_counts", json!(counts));
     run.bound("b2.delta_patterns", json!(["zero", "byte ±1", "byte 127/-128", "word 128/-129,-300", "zero run then byte", "single 32767/-32768 spike", "mixed zero/byte/word"]));
     run.bound("b2.masks", json!(["all required", "none", "first", "last", "every 2nd", "every 3rd", "first+last", "first 127", "first 128", "first 129", "gaps 255/256/257"]));
-    run.bound("b2.tents", json!({"1 axis": tents_1axis().iter().map(region_json).collect::<Vec<_>>(), "2 axes": tents_2axis().iter().map(region_json).collect::<Vec<_>>()}));
-    run.bound("b2.glyph_configs", json!(["one glyph one region", "one glyph two regions same mask (shared points candidate)", "one glyph two regions different masks", "two glyphs same region (shared tuple candidate)"]));
+    run.bound("b2.tents", json!({"1 axis": tents_1axis().iter().map(region_json).collect::<Vec<_>>(), "2 axes": tents_2axis().iter().map(region_json).collect::<Vec<_>>(), "3 axes": tents_3axis().iter().map(region_json).collect::<Vec<_>>()}));
+    run.bound("b2.glyph_configs", json!(["one glyph one region", "one glyph two regions same mask (shared points candidate)", "one glyph two regions different masks", "two glyphs same region (shared tuple candidate)", "three glyphs, two regions in opposite orders", "empty variation data at start / middle x2 / end"]));
     let mut tasks = vec![];
     for &n in &counts {
         for p in 0..PATTERNS {
@@ -992,8 +1138,8 @@ fn structured_family(run: &Run) {
         .par_iter()
         .map(|&(n, p, m)| {
             let mut l = Local::new();
-            for axes in [1u16, 2] {
-                let tents = if axes == 1 { tents_1axis() } else { tents_2axis() };
+            for axes in [1u16, 2, 3] {
+                let tents = tents_for(axes);
                 for (ti, region) in tents.iter().enumerate() {
                     let other = &tents[(ti + 1) % tents.len()];
                     let base = |tuples: Vec<TupleSpec>| GlyphSpec {
@@ -1010,6 +1156,23 @@ fn structured_family(run: &Run) {
                         vec![
                             base(vec![t0.clone()]),
                             base(vec![structured_tuple(n, (p + 2) % PATTERNS, m, region), structured_tuple(n, p, m, other)]),
+                        ],
+                        // three glyphs using two regions in opposite orders and with different
+                        // frequencies (order of the shared tuple table vs order of use)
+                        vec![
+                            base(vec![t0.clone(), structured_tuple(n, (p + 1) % PATTERNS, m, other)]),
+                            base(vec![structured_tuple(n, p, m, other), structured_tuple(n, (p + 3) % PATTERNS, m, region)]),
+                            base(vec![structured_tuple(n, (p + 4) % PATTERNS, (m + 2) % MASKS, other)]),
+                        ],
+                        // glyphs without any variation data at the start, in the middle (twice) and at
+                        // the end: equal consecutive offsets
+                        vec![
+                            base(vec![]),
+                            base(vec![t0.clone()]),
+                            base(vec![]),
+                            base(vec![]),
+                            base(vec![structured_tuple(n, (p + 1) % PATTERNS, m, other)]),
+                            base(vec![]),
                         ],
                     ];
                     for gs in &configs {
@@ -1028,9 +1191,10 @@ fn structured_family(run: &Run) {
     run.sample(gvar_case_json("b2", &gs, 1));
 }
 
-/// (b3) total data size swept across the short/long offsets switch (131070 / 131072 bytes)
-fn offsets_family(run: &Run) {
-    // three fixed big glyphs + one glyph whose point count is swept
+/// glyph list of the (b3) family: big glyphs interleaved with glyphs that have no variation data
+/// (equal consecutive offsets before, between and after the big ones); the point count of the fourth
+/// big glyph is swept.
+fn offsets_glyphs(n: usize) -> Vec<GlyphSpec> {
     let region = tents_1axis()[0].clone();
     let big = |n: usize, salt: i16| -> GlyphSpec {
         GlyphSpec {
@@ -1039,41 +1203,47 @@ fn offsets_family(run: &Run) {
             tol2: 0,
             tuples: vec![TupleSpec {
                 region: region.clone(),
+                // word x deltas (2 bytes) + byte y deltas (1 byte) + run headers: ~3.03 bytes per point
                 deltas: (0..n + 4)
                     .map(|i| (((i % 250) as i16) + 130 + salt, -(((i * 7) % 90) as i16) - 1, true))
                     .collect(),
             }],
         }
     };
-    // word x deltas (2 bytes) + byte y deltas (1 byte) + run headers: ~3.03 bytes per point
-    let fixed: Vec<GlyphSpec> = vec![big(14000, 0), big(14000, 1), big(14000, 2)];
-    // find the sweep window by measuring, not by formula
-    let size_of = |n: usize| -> usize {
-        let mut gs = fixed.clone();
-        gs.push(big(n, 3));
-        build_gvar(&gs, 1).map(|b| b.len()).unwrap_or(0)
+    let empty = || GlyphSpec { coords: scatter(2), ends: vec![1], tol2: 0, tuples: vec![] };
+    vec![empty(), big(14000, 0), empty(), empty(), big(14000, 1), big(14000, 2), empty(), big(n, 3), empty(), big(3, 4), empty()]
+}
+
+/// (b3) total data size swept across the short/long offsets switch (131070 / 131072 bytes)
+fn offsets_family(run: &Run) {
+    // find the first point count that needs long offsets by measuring, not by formula
+    let is_long = |n: usize| -> bool {
+        build_gvar(&offsets_glyphs(n), 1)
+            .ok()
+            .and_then(|b| rgvar::Gvar::read(FontData::new(&b)).ok().map(|g| g.flags().contains(rgvar::GvarFlags::LONG_OFFSETS)))
+            .unwrap_or(true)
     };
-    let target = 131072 + 20 + 5 * 2; // header + short offsets, approximately
-    let (mut lo, mut hi) = (100usize, 4000usize);
+    let (mut lo, mut hi) = (100usize, 6000usize);
+    if is_long(lo) || !is_long(hi) {
+        run.machinery_error("b3: sweep bracket does not straddle the offset switch");
+        return;
+    }
     while lo + 1 < hi {
         let mid = (lo + hi) / 2;
-        if size_of(mid) < target {
-            lo = mid;
-        } else {
+        if is_long(mid) {
             hi = mid;
+        } else {
+            lo = mid;
         }
     }
-    let window: Vec<usize> = (lo.saturating_sub(12)..lo + 14).collect();
-    run.bound("b3.swept_point_counts_of_last_glyph", json!([window[0], window[window.len() - 1]]));
+    let window: Vec<usize> = (hi - 13..hi + 13).collect();
+    run.bound("b3.swept_point_counts_of_last_big_glyph", json!([window[0], window[window.len() - 1]]));
+    run.bound("b3.glyph_list", json!("empty, big, empty, empty, big, big, empty, swept, empty, small, empty"));
     let results: Vec<(Local, usize, bool)> = window
         .par_iter()
         .map(|&n| {
             let mut l = Local::new();
-            let mut gs = fixed.clone();
-            gs.push(big(n, 3));
-            // an empty glyph and a small trailing glyph exercise offsets after the big data
-            gs.push(GlyphSpec { coords: scatter(2), ends: vec![1], tol2: 0, tuples: vec![] });
-            gs.push(big(3, 4));
+            let gs = offsets_glyphs(n);
             let case = || json!({"kind":"offsets","last_glyph_points":n});
             let bytes = check_gvar(run, "b3", &gs, 1, &mut l, &case);
             let len = bytes.as_ref().map(|b| b.len()).unwrap_or(0);
@@ -1094,34 +1264,13 @@ fn offsets_family(run: &Run) {
         l.merge(run, "b3");
     }
     run.extra("b3.table_sizes_and_long_flag", json!(sizes));
-    if shorts == 0 || longs == 0 {
+    if (shorts == 0 || longs == 0) && run.violations() == 0 {
         run.machinery_error(&format!("b3 sweep does not straddle the offset switch (short {shorts}, long {longs})"));
     }
 }
 
 fn offsets_replay_glyphs(n: usize) -> Vec<GlyphSpec> {
-    let region = tents_1axis()[0].clone();
-    let big = |n: usize, salt: i16| -> GlyphSpec {
-        GlyphSpec {
-            coords: scatter(n),
-            ends: vec![n - 1],
-            tol2: 0,
-            tuples: vec![TupleSpec {
-                region: region.clone(),
-                deltas: (0..n + 4)
-                    .map(|i| (((i % 250) as i16) + 130 + salt, -(((i * 7) % 90) as i16) - 1, true))
-                    .collect(),
-            }],
-        }
-    };
-    vec![
-        big(14000, 0),
-        big(14000, 1),
-        big(14000, 2),
-        big(n, 3),
-        GlyphSpec { coords: scatter(2), ends: vec![1], tol2: 0, tuples: vec![] },
-        big(3, 4),
-    ]
+    offsets_glyphs(n)
 }
 
 // ---------------------------------------------------------------------------
@@ -1463,14 +1612,17 @@ fn application_family(run: &Run) {
     let t1 = tents_1axis();
     let t2 = tents_2axis();
     run.bound("c.delta_sets", json!(["dense mixed", "sparse 1 per contour", "sparse 2 per contour", "dense large"]));
-    run.bound("c.region_lists", json!("1 axis: each of 4 tents alone, every ordered pair, one triple; 2 axes: each of 4 alone, every ordered pair"));
+    run.bound("c.region_lists", json!("1 axis: each of 7 tents alone (3 with start/end one ulp from the peak), every ordered pair of the first 4, one triple, one ulp pair; 2 axes: each of 4 alone, every ordered pair; 3 axes: each of 3 alone, one pair"));
     run.bound("c.locations_per_axis", json!("0, ±1.0, ±1 ulp, and for every region start-1..start+1, mid, peak-1..peak+1, mid, end-1..end+1, -peak"));
     // region lists
     let mut fonts: Vec<FontSpec> = vec![];
-    for (axes, tents) in [(1u16, &t1), (2u16, &t2)] {
+    let t3 = tents_3axis();
+    for (axes, tents) in [(1u16, &t1), (2u16, &t2), (3u16, &t3)] {
         let mut lists: Vec<Vec<usize>> = (0..tents.len()).map(|i| vec![i]).collect();
-        for i in 0..tents.len() {
-            for j in 0..tents.len() {
+        // ordered pairs over the first four tents (1 and 2 axes); one pair for 3 axes
+        let np = if axes == 3 { 0 } else { 4 };
+        for i in 0..np {
+            for j in 0..np {
                 if i != j {
                     lists.push(vec![i, j]);
                 }
@@ -1478,6 +1630,10 @@ fn application_family(run: &Run) {
         }
         if axes == 1 {
             lists.push(vec![0, 1, 3]);
+            lists.push(vec![1, 4]);
+        }
+        if axes == 3 {
+            lists.push(vec![1, 2]);
         }
         for list in &lists {
             // delta set choice: every set for single regions; rotating assignment for lists
@@ -1511,15 +1667,18 @@ fn application_family(run: &Run) {
             let mut l = Local::new();
             let regions: Vec<Region> = f.glyph.tuples.iter().map(|t| t.region.clone()).collect();
             let per_axis: Vec<Vec<i16>> = (0..f.axis_count as usize).map(|a| axis_locations(&regions, a)).collect();
-            let mut locs: Vec<Vec<i16>> = vec![];
-            if f.axis_count == 1 {
-                locs = per_axis[0].iter().map(|x| vec![*x]).collect();
-            } else {
-                for x in &per_axis[0] {
-                    for y in &per_axis[1] {
-                        locs.push(vec![*x, *y]);
+            // cartesian product of the per-axis boundary locations
+            let mut locs: Vec<Vec<i16>> = vec![vec![]];
+            for axis in &per_axis {
+                let mut next = Vec::with_capacity(locs.len() * axis.len());
+                for l0 in &locs {
+                    for x in axis {
+                        let mut v = l0.clone();
+                        v.push(*x);
+                        next.push(v);
                     }
                 }
+                locs = next;
             }
             check_font(run, f, &locs, &mut l);
             l
@@ -1529,6 +1688,582 @@ fn application_family(run: &Run) {
         l.merge(run, "c");
     }
     run.sample(font_json(&fonts[5], &[0x2000], "freetype"));
+}
+
+// ---------------------------------------------------------------------------
+// (c2) variable composites
+// ---------------------------------------------------------------------------
+
+#[derive(Clone, Debug)]
+struct CompSpec {
+    gid: u16,
+    ox: i16,
+    oy: i16,
+    xf: [i16; 4], // F2Dot14 bits: xx, yx, xy, yy
+    use_my_metrics: bool,
+    round_xy: bool,
+    unscaled_offset: bool,
+}
+
+#[derive(Clone, Debug)]
+enum VGlyph {
+    Simple(GlyphSpec),
+    /// one delta per component offset + 4 phantoms in every tuple; all required
+    Composite { comps: Vec<CompSpec>, tuples: Vec<TupleSpec> },
+}
+
+#[derive(Clone, Debug)]
+struct CFont {
+    glyphs: Vec<VGlyph>,
+    axis_count: u16,
+}
+
+const IDENTITY: [i16; 4] = [ONE, 0, 0, ONE];
+const C_ADVANCE: u16 = 700;
+
+fn vglyph_gvar_spec(g: &VGlyph) -> GlyphSpec {
+    match g {
+        VGlyph::Simple(s) => s.clone(),
+        VGlyph::Composite { comps, tuples } => {
+            GlyphSpec { coords: vec![(0, 0); comps.len()], ends: vec![], tuples: tuples.clone(), tol2: 0 }
+        }
+    }
+}
+
+fn cfont_json(f: &CFont, gid: u32, loc: &[i16], style: &str) -> Value {
+    json!({
+        "kind": "cdraw", "axis_count": f.axis_count, "draw_glyph": gid, "location": loc, "style": style,
+        "glyphs": f.glyphs.iter().map(|g| match g {
+            VGlyph::Simple(s) => json!({"simple": glyph_json(s)}),
+            VGlyph::Composite { comps, tuples } => json!({
+                "comps": comps.iter().map(|c| json!({"gid":c.gid,"ox":c.ox,"oy":c.oy,"xf":c.xf,"mm":c.use_my_metrics,"round":c.round_xy,"unscaled":c.unscaled_offset})).collect::<Vec<_>>(),
+                "tuples": tuples.iter().map(|t| json!({"region": region_json(&t.region), "deltas": t.deltas.iter().map(|d| json!([d.0,d.1,d.2 as u8])).collect::<Vec<_>>()})).collect::<Vec<_>>(),
+            }),
+        }).collect::<Vec<_>>(),
+    })
+}
+
+fn cfont_from_json(v: &Value) -> CFont {
+    let tuples = |t: &Value| -> Vec<TupleSpec> {
+        t.as_array()
+            .unwrap()
+            .iter()
+            .map(|t| TupleSpec {
+                region: region_from_json(&t["region"]),
+                deltas: t["deltas"]
+                    .as_array()
+                    .unwrap()
+                    .iter()
+                    .map(|d| (d[0].as_i64().unwrap() as i16, d[1].as_i64().unwrap() as i16, d[2].as_i64().unwrap() != 0))
+                    .collect(),
+            })
+            .collect()
+    };
+    CFont {
+        axis_count: v["axis_count"].as_u64().unwrap() as u16,
+        glyphs: v["glyphs"]
+            .as_array()
+            .unwrap()
+            .iter()
+            .map(|g| {
+                if g.get("simple").is_some() {
+                    VGlyph::Simple(glyph_from_json(&g["simple"]))
+                } else {
+                    VGlyph::Composite {
+                        comps: g["comps"]
+                            .as_array()
+                            .unwrap()
+                            .iter()
+                            .map(|c| CompSpec {
+                                gid: c["gid"].as_u64().unwrap() as u16,
+                                ox: c["ox"].as_i64().unwrap() as i16,
+                                oy: c["oy"].as_i64().unwrap() as i16,
+                                xf: {
+                                    let a = c["xf"].as_array().unwrap();
+                                    [0, 1, 2, 3].map(|i| a[i].as_i64().unwrap() as i16)
+                                },
+                                use_my_metrics: c["mm"].as_bool().unwrap(),
+                                round_xy: c["round"].as_bool().unwrap(),
+                                unscaled_offset: c["unscaled"].as_bool().unwrap(),
+                            })
+                            .collect(),
+                        tuples: tuples(&g["tuples"]),
+                    }
+                }
+            })
+            .collect(),
+    }
+}
+
+fn simple_write_glyph(g: &GlyphSpec) -> (SimpleGlyph, Bbox) {
+    let mut contours = vec![];
+    let mut start = 0;
+    for &e in &g.ends {
+        contours.push(Contour::from(
+            g.coords[start..=e]
+                .iter()
+                .map(|p| read_fonts::tables::glyf::CurvePoint::new(p.0 as i16, p.1 as i16, true))
+                .collect::<Vec<_>>(),
+        ));
+        start = e + 1;
+    }
+    let xs = g.coords.iter().map(|p| p.0 as i16);
+    let ys = g.coords.iter().map(|p| p.1 as i16);
+    let bbox = Bbox {
+        x_min: xs.clone().min().unwrap(),
+        x_max: xs.max().unwrap(),
+        y_min: ys.clone().min().unwrap(),
+        y_max: ys.max().unwrap(),
+    };
+    (SimpleGlyph { bbox, contours, instructions: vec![] }, bbox)
+}
+
+fn build_cfont(f: &CFont) -> Result<Vec<u8>, String> {
+    let mut b = GlyfLocaBuilder::new();
+    let mut metrics = vec![];
+    for g in &f.glyphs {
+        match g {
+            VGlyph::Simple(s) => {
+                let (glyph, bbox) = simple_write_glyph(s);
+                b.add_glyph(&glyph).map_err(|e| format!("{e}"))?;
+                metrics.push(LongMetric::new(C_ADVANCE, bbox.x_min));
+            }
+            VGlyph::Composite { comps, .. } => {
+                // xMin = 0 and lsb = 0: phantom point 1 of the composite is at the origin
+                let bbox = Bbox { x_min: 0, y_min: -100, x_max: 900, y_max: 900 };
+                let mk = |c: &CompSpec| {
+                    Component::new(
+                        GlyphId16::new(c.gid),
+                        Anchor::Offset { x: c.ox, y: c.oy },
+                        Transform {
+                            xx: F2Dot14::from_bits(c.xf[0]),
+                            yx: F2Dot14::from_bits(c.xf[1]),
+                            xy: F2Dot14::from_bits(c.xf[2]),
+                            yy: F2Dot14::from_bits(c.xf[3]),
+                        },
+                        ComponentFlags {
+                            round_xy_to_grid: c.round_xy,
+                            use_my_metrics: c.use_my_metrics,
+                            unscaled_component_offset: c.unscaled_offset,
+                            ..Default::default()
+                        },
+                    )
+                };
+                let mut cg = CompositeGlyph::new(mk(&comps[0]), bbox);
+                for c in &comps[1..] {
+                    cg.add_component(mk(c), bbox);
+                }
+                b.add_glyph(&Glyph::Composite(cg)).map_err(|e| format!("{e}"))?;
+                metrics.push(LongMetric::new(C_ADVANCE, 0));
+            }
+        }
+    }
+    let (glyf, loca, fmt) = b.build();
+    let specs: Vec<GlyphSpec> = f.glyphs.iter().map(vglyph_gvar_spec).collect();
+    let gvar = build_gvar(&specs, f.axis_count)?;
+    let n = f.glyphs.len() as u16;
+    let head = Head { units_per_em: 1000, index_to_loc_format: fmt as i16, ..Default::default() };
+    let hhea = Hhea { number_of_h_metrics: n, ..Default::default() };
+    let hmtx = Hmtx::new(metrics, vec![]);
+    let mut fb = FontBuilder::new();
+    fb.add_table(&head).map_err(|e| format!("{e}"))?;
+    fb.add_table(&hhea).map_err(|e| format!("{e}"))?;
+    fb.add_table(&hmtx).map_err(|e| format!("{e}"))?;
+    fb.add_table(&Maxp::new(n)).map_err(|e| format!("{e}"))?;
+    fb.add_table(&glyf).map_err(|e| format!("{e}"))?;
+    fb.add_table(&loca).map_err(|e| format!("{e}"))?;
+    fb.add_raw(Tag::new(b"gvar"), gvar);
+    Ok(fb.build())
+}
+
+/// inclusive integer interval of acceptable drawn values
+#[derive(Clone, Copy, Debug)]
+struct Iv {
+    lo: i128,
+    hi: i128,
+}
+fn round_iv(e: R, eps: R) -> Iv {
+    Iv { lo: floor_r(e.sub(eps).add(R::new(1, 2))), hi: floor_r(e.add(eps).add(R::new(1, 2))) }
+}
+fn ceil_r(r: R) -> i128 {
+    -floor_r(R { n: -r.n, d: r.d })
+}
+
+/// what the reference knows about one glyph at one location
+struct Eval {
+    /// FreeType-style: integer interval per coordinate (before the origin shift)
+    iv: Vec<(Iv, Iv)>,
+    /// exact values (HarfBuzz-style has no rounding step)
+    exact: Vec<(R, R)>,
+    /// phantom point 1 x: interval and exact
+    pp1: (Iv, R),
+    /// accumulated fixed-point error bound of everything below
+    eps: R,
+    /// number of active tuples in the whole tree
+    active: usize,
+}
+
+struct CRef<'a> {
+    font: &'a CFont,
+    dec: Vec<Vec<Decoded>>, // per glyph, read back from the compiled gvar
+    loc: &'a [i16],
+}
+
+impl CRef<'_> {
+    /// exact deltas Σ scalar·delta for every point (incl. phantoms) of glyph `gid`, error bound, active count
+    fn deltas(&self, gid: usize, all: &[(i64, i64)], ends: &[usize], tuples: &[TupleSpec]) -> (Vec<(R, R)>, R, usize) {
+        let mut out = vec![(R::int(0), R::int(0)); all.len()];
+        let mut eps_num: i128 = 0;
+        let mut active = 0;
+        for (t, d) in tuples.iter().zip(self.dec[gid].iter()) {
+            let s = exact_scalar(&d.eff, &t.region, self.loc);
+            if s.n == 0 {
+                continue;
+            }
+            active += 1;
+            let m = d.explicit.iter().flatten().map(|e| e.0.abs().max(e.1.abs())).max().unwrap_or(0) as i128;
+            eps_num += m * self.font.axis_count as i128 + 3;
+            let inf = infer(all, ends, &d.explicit);
+            for i in 0..all.len() {
+                out[i] = (out[i].0.add(s.mul(inf[i].0)), out[i].1.add(s.mul(inf[i].1)));
+            }
+        }
+        (out, R::new(eps_num, 1 << 16), active)
+    }
+
+    fn eval(&self, gid: usize) -> Eval {
+        match &self.font.glyphs[gid] {
+            VGlyph::Simple(g) => {
+                let mut all = g.coords.clone();
+                all.extend([(0, 0), (C_ADVANCE as i64, 0), (0, 0), (0, 0)]);
+                let (d, eps, active) = self.deltas(gid, &all, &g.ends, &g.tuples);
+                let n = g.coords.len();
+                let mut iv = vec![];
+                let mut exact = vec![];
+                for i in 0..n {
+                    let (rx, ry) = (round_iv(d[i].0, eps), round_iv(d[i].1, eps));
+                    let (x, y) = (all[i].0 as i128, all[i].1 as i128);
+                    iv.push((Iv { lo: x + rx.lo, hi: x + rx.hi }, Iv { lo: y + ry.lo, hi: y + ry.hi }));
+                    exact.push((R::int(x).add(d[i].0), R::int(y).add(d[i].1)));
+                }
+                Eval { iv, exact, pp1: (round_iv(d[n].0, eps), d[n].0), eps, active }
+            }
+            VGlyph::Composite { comps, tuples } => {
+                let nc = comps.len();
+                let all = vec![(0i64, 0i64); nc + 4];
+                // composites: no inference, an unreferenced component has no delta
+                let (d, eps, mut active) = self.deltas(gid, &all, &[], tuples);
+                let mut total_eps = eps;
+                let mut pp1 = (round_iv(d[nc].0, eps), d[nc].0);
+                let mut iv = vec![];
+                let mut exact = vec![];
+                for (i, c) in comps.iter().enumerate() {
+                    let child = self.eval(c.gid as usize);
+                    active += child.active;
+                    total_eps = total_eps.add(child.eps);
+                    if c.use_my_metrics {
+                        pp1 = child.pp1;
+                    }
+                    let m = [c.xf[0], c.xf[1], c.xf[2], c.xf[3]].map(|b| R::new(b as i128, 1 << 14));
+                    let have_xform = c.xf != IDENTITY;
+                    let off_iv = (round_iv(d[i].0, eps), round_iv(d[i].1, eps));
+                    let (ox, oy) = (c.ox as i128, c.oy as i128);
+                    for (p_iv, p_ex) in child.iv.iter().zip(child.exact.iter()) {
+                        // exact: M p + o + delta
+                        let ex = m[0].mul(p_ex.0).add(m[2].mul(p_ex.1)).add(R::int(ox)).add(d[i].0);
+                        let ey = m[1].mul(p_ex.0).add(m[3].mul(p_ex.1)).add(R::int(oy)).add(d[i].1);
+                        exact.push((ex, ey));
+                        // interval: the transform of an integer point is two 16.16 products, each rounded
+                        // to a whole unit -> the result lies within one unit of the exact linear form
+                        let lin = |a: R, b: R| -> Iv {
+                            if !have_xform {
+                                return Iv { lo: 0, hi: 0 }; // handled below
+                            }
+                            let corners = [
+                                a.mul(R::int(p_iv.0.lo)).add(b.mul(R::int(p_iv.1.lo))),
+                                a.mul(R::int(p_iv.0.lo)).add(b.mul(R::int(p_iv.1.hi))),
+                                a.mul(R::int(p_iv.0.hi)).add(b.mul(R::int(p_iv.1.lo))),
+                                a.mul(R::int(p_iv.0.hi)).add(b.mul(R::int(p_iv.1.hi))),
+                            ];
+                            let mn = corners.iter().copied().fold(corners[0], |m, c| if c.sub(m).n < 0 { c } else { m });
+                            let mx = corners.iter().copied().fold(corners[0], |m, c| if c.sub(m).n > 0 { c } else { m });
+                            Iv { lo: ceil_r(mn.sub(R::int(1))), hi: floor_r(mx.add(R::int(1))) }
+                        };
+                        let (tx, ty) = if have_xform { (lin(m[0], m[2]), lin(m[1], m[3])) } else { (p_iv.0, p_iv.1) };
+                        iv.push((
+                            Iv { lo: tx.lo + ox + off_iv.0.lo, hi: tx.hi + ox + off_iv.0.hi },
+                            Iv { lo: ty.lo + oy + off_iv.1.lo, hi: ty.hi + oy + off_iv.1.hi },
+                        ));
+                    }
+                }
+                Eval { iv, exact, pp1, eps: total_eps, active }
+            }
+        }
+    }
+}
+
+fn check_cfont(run: &Run, f: &CFont, draw: &[u32], locs: &[Vec<i16>], l: &mut Local) {
+    let bytes = match guard(|| build_cfont(f)) {
+        Ok(Ok(b)) => b,
+        Ok(Err(e)) => {
+            run.violation("c2: variable composite font cannot be built", &e, cfont_json(f, 0, &[], "build"));
+            return;
+        }
+        Err(p) => {
+            run.violation(&format!("c2: font build panic: {} in {}", p.kind(), p.site()), &p.message, cfont_json(f, 0, &[], "build"));
+            return;
+        }
+    };
+    // (b) for composites: the compiled gvar reads back as written (component deltas are all required)
+    let specs: Vec<GlyphSpec> = f.glyphs.iter().map(vglyph_gvar_spec).collect();
+    {
+        let case = || cfont_json(f, 0, &[], "gvar");
+        if check_gvar(run, "c2", &specs, f.axis_count, l, &case).is_none() {
+            return;
+        }
+    }
+    let gv = build_gvar(&specs, f.axis_count).unwrap();
+    let rg = rgvar::Gvar::read(FontData::new(&gv)).unwrap();
+    let mut dec = vec![];
+    for (gid, s) in specs.iter().enumerate() {
+        match decode_glyph(&rg, gid as u32, s.coords.len() + 4, f.axis_count as usize) {
+            Ok(d) => dec.push(d),
+            Err(e) => {
+                run.violation("c2: glyph variation data unreadable", &e, cfont_json(f, gid as u32, &[], "decode"));
+                return;
+            }
+        }
+    }
+    let font = match FontRef::new(&bytes) {
+        Ok(f) => f,
+        Err(e) => {
+            run.violation("c2: built font does not parse", &format!("{e}"), cfont_json(f, 0, &[], "parse"));
+            return;
+        }
+    };
+    let outlines = font.outline_glyphs();
+    for &gid in draw {
+        let Some(og) = outlines.get(GlyphId::new(gid)) else {
+            run.violation("c2: no outline for a composite glyph", "", cfont_json(f, gid, &[], "parse"));
+            return;
+        };
+        for loc in locs {
+            l.evals += 1;
+            l.trans += 2;
+            let coords: Vec<F2Dot14> = loc.iter().map(|b| F2Dot14::from_bits(*b)).collect();
+            let reference = CRef { font: f, dec: std::mem::take(&mut dec), loc };
+            let ev = reference.eval(gid as usize);
+            dec = reference.dec;
+            for (style_name, style) in [
+                ("freetype", skrifa::outline::pen::PathStyle::FreeType),
+                ("harfbuzz", skrifa::outline::pen::PathStyle::HarfBuzz),
+            ] {
+                let mut pen = PtsPen::default();
+                let settings = DrawSettings::unhinted(Size::unscaled(), LocationRef::new(&coords)).with_path_style(style);
+                match guard(|| og.draw(settings, &mut pen)) {
+                    Ok(Ok(_)) => {}
+                    Ok(Err(e)) => {
+                        run.violation(&format!("c2: draw of a variable composite fails ({style_name})"), &format!("{e}"), cfont_json(f, gid, loc, style_name));
+                        continue;
+                    }
+                    Err(p) => {
+                        run.violation(&format!("c2: draw panic: {} in {}", p.kind(), p.site()), &p.message, cfont_json(f, gid, loc, style_name));
+                        continue;
+                    }
+                }
+                if pen.1 || pen.0.len() != ev.iv.len() {
+                    run.violation(
+                        &format!("c2: drawn composite has the wrong structure ({style_name})"),
+                        &format!("{} points drawn, {} expected", pen.0.len(), ev.iv.len()),
+                        cfont_json(f, gid, loc, style_name),
+                    );
+                    continue;
+                }
+                let mut bad: Option<String> = None;
+                if style_name == "freetype" {
+                    for (i, (got, want)) in pen.0.iter().zip(ev.iv.iter()).enumerate() {
+                        let xi = Iv { lo: want.0.lo - ev.pp1.0.hi, hi: want.0.hi - ev.pp1.0.lo };
+                        let okx = got.0.fract() == 0.0 && (xi.lo..=xi.hi).contains(&(got.0 as i128));
+                        let oky = got.1.fract() == 0.0 && (want.1.lo..=want.1.hi).contains(&(got.1 as i128));
+                        if xi.lo != xi.hi || want.1.lo != want.1.hi {
+                            l.halfway += 1;
+                        }
+                        if !(okx && oky) && bad.is_none() {
+                            bad = Some(format!(
+                                "point {i}: drawn {:?}, accepted x {}..={} y {}..={} (exact {}, {}; origin {})",
+                                got, xi.lo, xi.hi, want.1.lo, want.1.hi, ev.exact[i].0.to_f64(), ev.exact[i].1.to_f64(), ev.pp1.1.to_f64()
+                            ));
+                        }
+                    }
+                } else {
+                    // no rounding step; the origin may or may not be the varied phantom point 1
+                    let slack = |v: f64| 4.0 * ev.eps.to_f64() + 0.05 + v.abs() * 1e-5;
+                    let mut ok_any = false;
+                    let mut first_bad = String::new();
+                    for origin in [0.0, ev.pp1.1.to_f64()] {
+                        let mut ok = true;
+                        for (i, (got, want)) in pen.0.iter().zip(ev.exact.iter()).enumerate() {
+                            let (wx, wy) = (want.0.to_f64() - origin, want.1.to_f64());
+                            if (got.0 as f64 - wx).abs() > slack(wx) || (got.1 as f64 - wy).abs() > slack(wy) {
+                                ok = false;
+                                if first_bad.is_empty() {
+                                    first_bad = format!("point {i}: drawn {:?}, exact ({wx}, {wy}) with origin {origin}", got);
+                                }
+                                break;
+                            }
+                        }
+                        if ok {
+                            ok_any = true;
+                            if origin == 0.0 && ev.pp1.1.n != 0 {
+                                l.hb_unshifted += 1;
+                            }
+                            break;
+                        }
+                    }
+                    if !ok_any {
+                        bad = Some(first_bad);
+                    }
+                }
+                if let Some(detail) = bad {
+                    let VGlyph::Composite { comps, .. } = &f.glyphs[gid as usize] else { unreachable!() };
+                    let xf = comps.iter().any(|c| c.xf != IDENTITY);
+                    let mm = comps.iter().any(|c| c.use_my_metrics);
+                    let nested = comps.iter().any(|c| matches!(f.glyphs[c.gid as usize], VGlyph::Composite { .. }));
+                    run.violation(
+                        &format!(
+                            "drawn variable composite differs from components + Σ scalar·delta ({style_name}; {}{}{}{} active tuple(s))",
+                            if nested { "nested; " } else { "" },
+                            if xf { "transformed component; " } else { "" },
+                            if mm { "USE_MY_METRICS; " } else { "" },
+                            ev.active
+                        ),
+                        &format!("location {loc:?}: {detail}"),
+                        cfont_json(f, gid, loc, style_name),
+                    );
+                }
+                let mut h = Fnv::new();
+                h.str("c2");
+                h.str(style_name);
+                for p in &pen.0 {
+                    h.u64(p.0.to_bits() as u64);
+                    h.u64(p.1.to_bits() as u64);
+                }
+                l.all.insert(h.finish());
+                if ev.active > 0 {
+                    l.nontrivial.insert(h.finish());
+                }
+            }
+        }
+    }
+}
+
+fn composite_family(run: &Run) {
+    // glyph 0: triangle, glyph 1: square (simple, each with its own variations);
+    // glyph 2: composite of 0 and 1; glyph 3: composite of 2 (nested) and 0
+    let tri: Vec<(i64, i64)> = vec![(10, 0), (110, 7), (60, 93)];
+    let sq: Vec<(i64, i64)> = vec![(20, 10), (80, 10), (80, 70), (20, 70)];
+    let xforms: Vec<[i16; 4]> = vec![
+        IDENTITY,
+        [0x2000, 0, 0, 0x2000],       // scale 0.5
+        [0x6000, 0, 0, 0x3000],       // x 1.5, y 0.75
+        [0x2000, 0x1000, -0x1000, ONE], // 2x2
+    ];
+    // flag sets for (component 0, component 1) of glyph 2
+    let flag_sets: Vec<[(bool, bool, bool); 2]> = vec![
+        [(false, false, false), (false, false, false)],
+        [(false, true, false), (false, true, true)], // ROUND_XY_TO_GRID, UNSCALED_COMPONENT_OFFSET
+        [(true, false, false), (false, false, false)], // USE_MY_METRICS on the first
+        [(false, false, false), (true, false, false)], // USE_MY_METRICS on the second
+    ];
+    run.bound("c2.transforms_of_second_component", json!(["identity", "scale 0.5", "x 1.5 / y 0.75", "2x2 (0.5, 0.25, -0.25, 1)"]));
+    run.bound("c2.flag_sets", json!(["none", "ROUND_XY_TO_GRID + UNSCALED_COMPONENT_OFFSET", "USE_MY_METRICS on component 0", "USE_MY_METRICS on component 1"]));
+    run.bound("c2.glyphs", json!("0 triangle, 1 square (both varied), 2 = composite(0, 1), 3 = composite(2, 0 scaled 0.5)"));
+    run.assume("(c2) FreeType-style composites: every delta (point, component offset, phantom) is rounded half up to a whole unit after 16.16 accumulation (either neighbour inside the same error bound); a transformed component point lies within one unit of the exact linear form (two 16.16 products, each rounded to a unit); HarfBuzz-style: no rounding, compared within 4·bound + 0.05 + 1e-5·|value|, origin either reading; SCALED_COMPONENT_OFFSET and point-anchored components are not exercised");
+    let mut fonts: Vec<CFont> = vec![];
+    for axes in [1u16, 2] {
+        let tents = tents_for(axes);
+        // region lists for the composite glyphs and the simple glyphs
+        let lists: Vec<(Vec<usize>, Vec<usize>)> = if axes == 1 {
+            vec![(vec![0], vec![0]), (vec![1], vec![0, 1]), (vec![0, 1], vec![2]), (vec![3, 4], vec![1])]
+        } else {
+            vec![(vec![0], vec![1]), (vec![1, 3], vec![0])]
+        };
+        for (clist, slist) in &lists {
+            for xf in &xforms {
+                for fs in &flag_sets {
+                    let stuple = |n: usize, k: i16, r: usize| TupleSpec {
+                        region: tents[r].clone(),
+                        deltas: (0..n + 4)
+                            .map(|i| if i < n { (k * (2 * i as i16 + 1) - 7, 5 - k * i as i16, true) } else if i == n { (3 * k, 0, true) } else if i == n + 1 { (-k, 0, true) } else { (0, 0, true) })
+                            .collect(),
+                    };
+                    let ctuple = |k: i16, r: usize| TupleSpec {
+                        region: tents[r].clone(),
+                        // component offsets, then phantoms (left, right, top, bottom).
+                        // even k: every entry carried (dense tuple); odd multiples of 3..: only the
+                        // second component and the right phantom carry a delta, the rest are zero and
+                        // optional, so the tuple is stored with explicit point numbers (sparse)
+                        deltas: if k.rem_euclid(4) == 3 {
+                            vec![(0, 0, false), (-25 * k, 9 * k, true), (0, 0, false), (k, 0, true), (0, 0, false), (0, 0, false)]
+                        } else {
+                            vec![(11 * k, -3 * k, true), (-25 * k, 9 * k, true), (5 * k, 0, true), (k, 0, true), (0, 0, true), (0, 0, true)]
+                        },
+                    };
+                    let g0 = VGlyph::Simple(GlyphSpec { coords: tri.clone(), ends: vec![2], tol2: 0, tuples: slist.iter().enumerate().map(|(j, r)| stuple(3, 3 + 2 * j as i16, *r)).collect() });
+                    let g1 = VGlyph::Simple(GlyphSpec { coords: sq.clone(), ends: vec![3], tol2: 0, tuples: slist.iter().rev().enumerate().map(|(j, r)| stuple(4, -5 + 4 * j as i16, *r)).collect() });
+                    let g2 = VGlyph::Composite {
+                        comps: vec![
+                            CompSpec { gid: 0, ox: 20, oy: -10, xf: IDENTITY, use_my_metrics: fs[0].0, round_xy: fs[0].1, unscaled_offset: fs[0].2 },
+                            CompSpec { gid: 1, ox: 300, oy: 50, xf: *xf, use_my_metrics: fs[1].0, round_xy: fs[1].1, unscaled_offset: fs[1].2 },
+                        ],
+                        tuples: clist.iter().enumerate().map(|(j, r)| ctuple(3 + 4 * j as i16, *r)).collect(),
+                    };
+                    let g3 = VGlyph::Composite {
+                        comps: vec![
+                            CompSpec { gid: 2, ox: 5, oy: 5, xf: IDENTITY, use_my_metrics: fs[1].0, round_xy: false, unscaled_offset: false },
+                            CompSpec { gid: 0, ox: 500, oy: 0, xf: [0x2000, 0, 0, 0x2000], use_my_metrics: false, round_xy: fs[0].1, unscaled_offset: false },
+                        ],
+                        tuples: clist.iter().rev().enumerate().map(|(j, r)| ctuple(-7 + 6 * j as i16, *r)).collect(),
+                    };
+                    fonts.push(CFont { glyphs: vec![g0, g1, g2, g3], axis_count: axes });
+                }
+            }
+        }
+    }
+    run.count("c2.fonts", fonts.len() as u64);
+    let locals: Vec<Local> = fonts
+        .par_iter()
+        .map(|f| {
+            let mut l = Local::new();
+            let mut regions: Vec<Region> = vec![];
+            for g in &f.glyphs {
+                let ts = match g {
+                    VGlyph::Simple(s) => &s.tuples,
+                    VGlyph::Composite { tuples, .. } => tuples,
+                };
+                regions.extend(ts.iter().map(|t| t.region.clone()));
+            }
+            let per_axis: Vec<Vec<i16>> = (0..f.axis_count as usize).map(|a| axis_locations(&regions, a)).collect();
+            let mut locs: Vec<Vec<i16>> = vec![vec![]];
+            for axis in &per_axis {
+                let mut next = vec![];
+                for l0 in &locs {
+                    for x in axis {
+                        let mut v = l0.clone();
+                        v.push(*x);
+                        next.push(v);
+                    }
+                }
+                locs = next;
+            }
+            check_cfont(run, f, &[2, 3], &locs, &mut l);
+            l
+        })
+        .collect();
+    for l in locals {
+        l.merge(run, "c2");
+    }
+    run.sample(cfont_json(&fonts[5], 2, &[0x2000], "freetype"));
 }
 
 // ---------------------------------------------------------------------------
@@ -1545,6 +2280,13 @@ fn body(run: &Run, replay: Option<&Value>) {
             Some("iup") => {
                 check_iup(run, &iup_from_json(case), &mut l);
             }
+            Some("iup_half") => {
+                let pairs = |a: &Value| -> Vec<(i64, i64)> {
+                    a.as_array().unwrap().iter().map(|p| (p[0].as_i64().unwrap(), p[1].as_i64().unwrap())).collect()
+                };
+                let ends: Vec<usize> = case["ends"].as_array().unwrap().iter().map(|e| e.as_u64().unwrap() as usize).collect();
+                check_iup_half(run, &pairs(&case["coords_x2"]), &pairs(&case["deltas_x2"]), &ends, case["tol2"].as_i64().unwrap(), &mut l);
+            }
             Some("gvar") => {
                 let gs: Vec<GlyphSpec> = case["glyphs"].as_array().unwrap().iter().map(glyph_from_json).collect();
                 let axes = case["axis_count"].as_u64().unwrap() as u16;
@@ -1555,6 +2297,12 @@ fn body(run: &Run, replay: Option<&Value>) {
                 let gs = offsets_replay_glyphs(case["last_glyph_points"].as_u64().unwrap() as usize);
                 let c = || case.clone();
                 check_gvar(run, "b3", &gs, 1, &mut l, &c);
+            }
+            Some("cdraw") => {
+                let f = cfont_from_json(case);
+                let loc: Vec<i16> = case["location"].as_array().unwrap().iter().map(|x| x.as_i64().unwrap() as i16).collect();
+                let gid = case["draw_glyph"].as_u64().unwrap_or(2) as u32;
+                check_cfont(run, &f, &[gid.max(2)], &[loc], &mut l);
             }
             Some("draw") => {
                 let f = FontSpec {
@@ -1587,8 +2335,10 @@ fn body(run: &Run, replay: Option<&Value>) {
         }
     }
     optimiser_families(run);
+    half_unit_family(run);
     pipeline_family(run);
     structured_family(run);
     offsets_family(run);
     application_family(run);
+    composite_family(run);
 }
